@@ -385,6 +385,7 @@ for path in sorted(glob.glob(os.path.join(data, "*")), key=lambda p: (os.path.ge
 import numpy as np, tempfile
 from iodata import IOData, dump_one, dump_many
 tmp = tempfile.mkdtemp()
+__import__("atexit").register(__import__("shutil").rmtree, tmp, True)
 minimal = [IOData(atnums=[2], atcoords=np.zeros((1, 3)), title="one atom"), IOData(atnums=[10, 18], atcoords=np.array([[0.0, 0, 0], [0, 0, 6.0]]), title="no bonds", cellvecs=np.eye(3) * 20.0)]
 for name, mod in sorted(FORMAT_MODULES.items()):
     if not (hasattr(mod, "dump_one") and hasattr(mod, "load_one")): continue
